@@ -27,10 +27,12 @@ def main():
                     if 'no-failing-input-found' in l:
                         key += ' (no-failing-input-found)'
                 res.append('%s: **caught** `%s`' % (pid, key))
+            elif name.startswith('harmless'):
+                res.append('%s: passes (as required)' % pid)
             else:
                 res.append('%s: not caught' % pid)
         conf = 'applies, builds, suite passes' if (m.get('confirmed_applies') and m.get('confirmed_builds') and m.get('confirmed_tests_pass')) else \
-               ('revert of a repair' if m.get('kind') else '?')
+               (m.get('kind') or '?')
         rows.append((prop, name, files, summ, conf, '; '.join(res)))
     rows.sort()
     out = ['| property | seeded change | files | what it changes | confirmed | checks run against it |', '|---|---|---|---|---|---|']
